@@ -99,6 +99,36 @@ def run(chk):
             continue
         chk.cov["traces_validated_against_impl"] += 1
         distinct.add(hash(tuple(lines)))
+    # nesting depth: objects may be nested CONF_MAX_DEPTH (64) deep; deeper files - however deep - must be REPORTED as bad files
+    # (no stack exhaustion in the parser, the merge or the clean-up) and leave the configuration untouched (D28)
+    dcases = []
+    for k in (200000, 1, 63, 64, 65, 66, 500, 20000):
+        deep = b"a{" * k + b" x y; " + b"}" * k + b"\n"
+        dcases.append((k, Case([('reg', 'str', 'keep', 0, 'd0'), ('load', b'keep v1; o { p q }\n'), ('dump',), ('load', deep), ('dump',), ('load', b"a{" * k), ('dump',)], "objects nested %d deep" % k)))
+        chk.hist("load:nesting depth")
+    # (the extracted model is not tail recursive over the input text: the 400 KB file is judged by the oracle alone)
+    dm_ = iter(run_model(drv, [c for k_, c in dcases if k_ <= 20000]))
+    dmodel = [next(dm_) if k_ <= 20000 else None for k_, c in dcases]
+    for (k, case), (rc, lines, err), m in zip(dcases, run_harness(impl, [c for _, c in dcases]), dmodel):
+        if len(chk.violations) >= 4: break
+        chk.cov["evaluations"] += 1
+        why = None; found = True
+        if rc != 0:
+            why = "a configuration file with objects nested %d deep ended in a memory error or abort (exit status %s): %s" % (k, rc, err[-600:].replace("\n", " | "))
+        else:
+            segs = segments(lines)
+            if len(segs) != len(case.items): why = "harness produced %d answers for %d commands" % (len(segs), len(case.items))
+            else:
+                why = failed_load_oracle(case, segs)
+                ok = [x for sg in segs for x in sg if x.startswith("LOAD")]
+                if why is None and len(ok) >= 2 and (ok[1] == "LOAD OK") != (k <= 64):
+                    why = "objects nested %d deep: the load %s (the limit is 64)" % (k, "succeeded" if ok[1] == "LOAD OK" else "was refused")
+        if why is None and m is not None and lines != m:
+            why = "src/config.c and the Coq model disagree on a file with objects nested %d deep" % k; found = False
+        if why:
+            chk.violation(why, "script: register 'keep', load a small file, then load %d times 'a{' + ' x y; ' + %d times '}', then %d times 'a{' alone\n\nimplementation (exit %s):\n%s\n\nstderr:\n%s" % (k, k, k, rc, "\n".join(lines[:40]), err[-1500:]), "conf:depth:%d" % k, found_input=found)
+            continue
+        chk.cov["traces_validated_against_impl"] += 1
     chk.cov["distinct_nontrivial"] = len(distinct)
     chk.cov["samples"] = [cases[0].describe().split("\n"), cases[5].describe().split("\n")[:12]]
     chk.cov["rule"] = "scripts of registrations and 2-5 loads: valid files (all four node kinds, nesting, comments, both list forms), the same file corrupted (truncated, bit flipped, random bytes), edge files (empty, NUL-leading, unterminated strings / lists / objects / comments), repeats; every valid file truncated at EVERY byte applied on top of a loaded configuration. Oracle independent of the model: after a load that reports an error the dump is identical and no hook fired; exit status 0 under ASan/UBSan; plus equality with the model's prediction. Distinct = distinct output traces."
